@@ -77,6 +77,61 @@ def run(tier, v):
                                          "matcher": True, "perturb": 0})
                         else:
                             empty_ref.append(("Q%d" % nw,) + k)
+    # ---- R: richly varied connections (lib/props/traffic.py), filters built from the endpoints that occur; TLC (TV_C15R) applies the
+    # documented rule to every frame's endpoints and says which frames each configuration admits
+    import random
+    from props import traffic
+    rng = random.Random(vlib.seed())
+    n_rich = 0
+    for t in range(3 if tier == "thorough" else 1):
+        ipid = [30000 + 1000 * t]
+
+        def nid():
+            ipid[0] += 1
+            return ipid[0]
+        conns = [traffic.connection(rng, 900 + 20 * t + c, ("http", "tls", "tcp")[c % 3], nid, maxpieces=3) for c in range(9)]
+        frames = [f for c in conns for f in c["frames"]]
+        eps = [traffic.endpoints(f) for f in frames]
+        first = [traffic.endpoints(c["frames"][0]) for c in conns]          # the SYN of each connection: client -> server
+        A_ = lambda a: {"v": a["v"], "b": a["b"]}
+        PF = lambda sp, dp, any_: [{"sp": sp, "dp": dp, "sr": [], "dr": [], "any": any_}]
+        IPF = lambda addrs, cs, cd: [{"addrs": addrs, "cs": cs, "cd": cd}]
+        net = lambda a, p: {"a": {"v": a["v"], "b": a["b"]}, "p": p}
+        v4 = [e for e in first if e["sa"]["v"] == 4] or first
+        v6 = [e for e in first if e["sa"]["v"] == 6] or first
+        C = lambda deny, port=(), ip=(), sub=(): {"deny": deny, "port": list(port), "ip": list(ip), "sub": list(sub)}
+        rcfgs = [C(False, PF([], [first[0]["dp"]], False)), C(True, PF([], [first[0]["dp"]], False)), C(False, PF([first[1]["sp"], first[2]["sp"]], [], False)),
+                 C(False, PF([], [first[3]["dp"], first[4]["sp"]], True)), C(True, PF([], [first[5]["dp"]], True)),
+                 C(False, ip=IPF([A_(v4[0]["sa"]), A_(v6[0]["sa"])], True, False)), C(True, ip=IPF([A_(v4[0]["da"]), A_(v6[0]["da"])], True, True)),
+                 C(False, ip=IPF([A_(first[6]["sa"])], False, True)), C(True, ip=IPF([A_(e["sa"]) for e in first[:4]], True, False)),
+                 C(False, sub=[{"nets": [net(v4[0]["sa"], 8), net(v6[0]["sa"], 32)], "cs": True, "cd": True}]),
+                 C(True, sub=[{"nets": [net(v4[-1]["sa"], 32), net(v6[-1]["sa"], 128)], "cs": True, "cd": False}]),
+                 C(False, sub=[{"nets": [net(v4[0]["da"], 0)], "cs": False, "cd": True}]), C(False, sub=[{"nets": [net(v6[0]["da"], 0)], "cs": True, "cd": True}]),
+                 C(True, sub=[{"nets": [net(v6[0]["sa"], 96), net(v4[0]["sa"], 31)], "cs": True, "cd": True}]),
+                 C(False, PF([], [first[0]["dp"], first[1]["dp"]], True), IPF([A_(e["da"]) for e in first], False, True), [{"nets": [net(v4[0]["sa"], 8), net(v6[0]["sa"], 16)], "cs": True, "cd": True}]),
+                 C(True, PF([], [first[2]["dp"]], False), IPF([A_(first[2]["da"])], False, True))]
+        rin = os.path.join(wd, "rich-%d.in" % t)
+        vlib.write_ndjson(rin, [{"eps": eps, "cfgs": rcfgs}])
+        admits = {}
+        vlib.tlc("TV_C15R", pid=PID, workers=8, env={"TRACE": rin}, timeout=900, coverage=False, tags=("ADMIT",), tag_sink=lambda tag, o: admits.__setitem__(o["c"], o["admit"]))
+        if len(admits) != len(rcfgs):
+            raise vlib.ToolError("TV_C15R decided %d of %d configurations" % (len(admits), len(rcfgs)))
+        hexes = [f.hex() for f in frames]
+        for crate in ("tcp", "http", "tls", "uni"):
+            for ci, cfg in enumerate(rcfgs):
+                sub = [f for f, ad in zip(hexes, admits[ci + 1]) if ad]
+                k = (100000 + t, crate, "mix", ci)
+                n_rich += 1
+                meta[k] = {"shape": {"rich_trace": t, "connections": [c["style"] for c in conns]}, "analyzer": crate, "trace": "mix", "filter": cfg, "frames": hexes, "admitted_subtrace": sub, "class": []}
+                base = {"crate": crate, "matcher": True, "cfg": {"http": True, "tcp": True, "tls": True, "matcher": True}}
+                ana.append(dict(base, id="F|%d|%s|%s|%d" % k, frames=hexes, filter=cfg))
+                ana.append(dict(base, id="U|%d|%s|%s|%d" % k, frames=sub, filter=None))
+                if crate != "uni" and ci % 3 == 0:
+                    pool.append({"id": "P3|%d|%s|%s|%d" % k, "crate": crate, "workers": 3, "queue": 256, "batch": 2, "timeout_ms": 5, "dispatchers": [hexes], "filter": cfg, "matcher": True, "perturb": 0})
+                    if sub:
+                        pool.append({"id": "Q3|%d|%s|%s|%d" % k, "crate": crate, "workers": 3, "queue": 256, "batch": 2, "timeout_ms": 5, "dispatchers": [sub], "filter": None, "matcher": True, "perturb": 0})
+                    else:
+                        empty_ref.append(("Q3",) + k)
     areq = os.path.join(wd, "ana.req")
     vlib.write_ndjson(areq, ana)
     aout = os.path.join(wd, "ana.out")
@@ -142,7 +197,8 @@ def run(tier, v):
     return v.finish("model_checking", {
         "states": r.distinct, "transitions": r.generated, "traces_validated_against_impl": n, "evaluations": n, "distinct_nontrivial": n_nontriv,
         "rule": "%d frame shapes x %d filter configurations x analyzers (tcp, http, tls, unified on the http and tls traces) through analyze_pcap, plus worker pools with the filter for a subset; "
-                "non-trivial = comparisons where some result is reported with or without the filter" % (len(shapes), len(cfgs)),
+                "plus %d (trace x analyzer x configuration) runs on traces of connections with independently drawn features (traffic.py), 16 configurations built from the endpoints that occur, admitted frames decided by TLC (TV_C15R); "
+                "non-trivial = comparisons where some result is reported with or without the filter" % (len(shapes), len(cfgs), n_rich),
         "samples": samples or [{"note": "none drawn"}], "exhaustive": tier == "thorough",
     }, ["the admitted sub-trace is defined by the endpoints the analyzer's own decoder derives (MC_C15!Ep) and Filter!ShouldProcess (judged by C14)", "only non-empty results are compared",
         "frames that are not TCP belong to neither run", "clock frozen through hook H1"])
